@@ -117,6 +117,18 @@ type transUnit struct {
 	errs        []string
 	defs        []string
 	imports     []string
+	// phase 3 options (all off for the units of phases 1 and 2, whose output must not change):
+	intType     string            // Lean type of Go int ("" = Nat; "Int" for signed counters)
+	consts      map[string]string // package-level string constants resolved from the source: Go name -> Lean literal
+	outcome     string            // outcome type of functions that may leave the translated semantics ("" = MayPanic)
+	guardGrowth bool              // `m[e] = …` with e ≠ k inside `for k := range m` is accepted with the guard "e is a key of m" (otherwise: outcome unspecified)
+}
+
+func (u *transUnit) outcomeTy() string {
+	if u.outcome != "" {
+		return u.outcome
+	}
+	return "MayPanic"
 }
 
 // methodInfo describes a translated function for its callers.
@@ -225,6 +237,9 @@ func (u *transUnit) leanType(t *gty) string {
 	case "string":
 		return "String"
 	case "int":
+		if u.intType != "" {
+			return u.intType
+		}
 		return "Nat"
 	case "error":
 		return "(Option GoErr)"
@@ -397,7 +412,12 @@ type fnCtx struct {
 	pre      []string // definitions emitted before this one (deferred bodies)
 	mayPanic bool     // a nil dereference is possible: the result type is MayPanic (…)
 	panicky  bool     // set during translation when a possible nil dereference was emitted
+	ranged   []rangedMap // maps being ranged over whose other keys the body assigns (guardGrowth)
+	derefN   int
+	curInd   int // indentation of the statement being translated (for lines an expression has to emit before it)
 }
+
+type rangedMap struct{ m, key string }
 
 func (c *fnCtx) fail(pos token.Pos, format string, a ...any) {
 	c.ok = false
@@ -455,6 +475,9 @@ func (c *fnCtx) expr(e ast.Expr, want *gty) (string, *gty) {
 		if lt, ok := u.enums[v.Name]; ok {
 			return lt, &gty{kind: "enum", name: u.enumOf(v.Name)}
 		}
+		if _, ok := u.consts[v.Name]; ok && c.lookup(v.Name) == nil {
+			return "const_" + v.Name, tyString
+		}
 		if vi := c.lookup(v.Name); vi != nil {
 			if vi.ref != nil {
 				c.fail(v.Pos(), "the reference %s (an entry of %s) is used other than as the receiver of a method call", v.Name, exprString(vi.ref.mapExpr))
@@ -479,6 +502,27 @@ func (c *fnCtx) expr(e ast.Expr, want *gty) (string, *gty) {
 		if sig, ok := c.extern(v); ok && len(sig.results) == 1 { // a configured constant-like external
 			return sig.lean, sig.results[0]
 		}
+		if ix, ok := v.X.(*ast.IndexExpr); ok && u.outcome != "" {
+			// m[k].f where the values of m are pointers to structs: a missing entry is a nil pointer, the field read panics
+			if ms, mt := c.expr(ix.X, nil); mt.kind == "map" && mt.elem.kind == "named" {
+				ks, kt := c.expr(ix.Index, tyString)
+				if kt.kind != "string" {
+					c.fail(v.Pos(), "map key is not a string")
+				}
+				for _, f := range u.structs[mt.elem.name] {
+					if f.name == v.Sel.Name {
+						c.derefN++
+						nm := fmt.Sprintf("__p%d", c.derefN)
+						c.line(c.curInd, fmt.Sprintf("-- %s: the entry is a pointer; a missing entry is nil and the field read panics", exprString(v)))
+						c.line(c.curInd, fmt.Sprintf("let some %s := (%s.get? %s) | return %s.panic", nm, ms, ks, u.outcomeTy()))
+						c.panicky = true
+						return nm + "." + leanIdent(f.name), f.ty
+					}
+				}
+				c.fail(v.Pos(), "unsupported selector %s", exprString(v))
+				return "default", tyUnk
+			}
+		}
 		xs, xt := c.expr(v.X, nil)
 		if xt.kind == "named" {
 			for _, f := range u.structs[xt.name] {
@@ -493,6 +537,12 @@ func (c *fnCtx) expr(e ast.Expr, want *gty) (string, *gty) {
 		if v.Op == token.NOT {
 			s, _ := c.expr(v.X, tyBool)
 			return "(!" + s + ")", tyBool
+		}
+		if v.Op == token.SUB && u.intType == "Int" {
+			s, t := c.expr(v.X, tyInt)
+			if t.kind == "int" {
+				return "(-" + s + ")", tyInt
+			}
 		}
 	case *ast.BinaryExpr:
 		switch v.Op {
@@ -538,6 +588,14 @@ func (c *fnCtx) expr(e ast.Expr, want *gty) (string, *gty) {
 			if at.kind == "int" {
 				return "(" + a + " + " + b + ")", tyInt
 			}
+		case token.SUB:
+			if u.intType == "Int" { // signed arithmetic only (Nat subtraction truncates)
+				a, at := c.expr(v.X, tyInt)
+				b, _ := c.expr(v.Y, tyInt)
+				if at.kind == "int" {
+					return "(" + a + " - " + b + ")", tyInt
+				}
+			}
 		}
 	case *ast.IndexExpr:
 		xs, xt := c.expr(v.X, nil)
@@ -580,6 +638,9 @@ func (c *fnCtx) expr(e ast.Expr, want *gty) (string, *gty) {
 		case "len":
 			s, t := c.expr(v.Args[0], nil)
 			if t.kind == "slice" || t.kind == "map" {
+				if u.intType != "" {
+					return "(" + s + ".length : " + u.intType + ")", tyInt
+				}
 				return s + ".length", tyInt
 			}
 			c.fail(v.Pos(), "len of a %s", t)
@@ -673,6 +734,14 @@ func (c *fnCtx) assignTo(ind int, lhs ast.Expr, rhs string, pos token.Pos) {
 			return
 		}
 		ks, _ := c.expr(l.Index, tyString)
+		for _, rm := range c.ranged {
+			if rm.m == exprString(l.X) && rm.key != exprString(l.Index) {
+				// Go: whether an entry added during a range is visited is unspecified
+				c.line(ind, fmt.Sprintf("if !(%s.has %s) then return %s.unspecified -- a key added to %s while ranging over it", ms, ks, c.u.outcomeTy(), rm.m))
+				c.panicky = true
+				break
+			}
+		}
 		c.assignTo(ind, l.X, "("+ms+".set "+ks+" "+rhs+")", pos)
 	default:
 		c.fail(pos, "unsupported assignment target %s", exprString(lhs))
@@ -756,7 +825,7 @@ func (c *fnCtx) emitReturn(ind int, rs *ast.ReturnStmt, pos token.Pos) {
 		c.line(ind, rv+" := "+c.leanName+"__defer "+c.u.extArgs+" "+rv)
 	}
 	if c.mayPanic {
-		c.line(ind, "return MayPanic.ret "+c.retTuple(vals))
+		c.line(ind, "return "+c.u.outcomeTy()+".ret "+c.retTuple(vals))
 		return
 	}
 	c.line(ind, "return "+c.retTuple(vals))
@@ -854,6 +923,7 @@ func (c *fnCtx) block(ind int, b *ast.BlockStmt) {
 
 func (c *fnCtx) stmt(ind int, s ast.Stmt) {
 	u := c.u
+	c.curInd = ind
 	switch v := s.(type) {
 	case *ast.EmptyStmt:
 	case *ast.BlockStmt:
@@ -965,6 +1035,15 @@ func (c *fnCtx) stmt(ind int, s ast.Stmt) {
 			c.fail(v.Pos(), "unsupported assignment")
 			return
 		}
+		if (v.Tok == token.SUB_ASSIGN || v.Tok == token.ADD_ASSIGN) && len(v.Lhs) == 1 && u.intType == "Int" {
+			ls, lt := c.expr(v.Lhs[0], tyInt)
+			rs, rt := c.expr(v.Rhs[0], tyInt)
+			if lt.kind == "int" && rt.kind == "int" {
+				op := map[token.Token]string{token.SUB_ASSIGN: "-", token.ADD_ASSIGN: "+"}[v.Tok]
+				c.assignTo(ind, v.Lhs[0], "("+ls+" "+op+" "+rs+")", v.Pos())
+				return
+			}
+		}
 		if v.Tok != token.DEFINE && v.Tok != token.ASSIGN {
 			c.fail(v.Pos(), "unsupported assignment operator %s", v.Tok)
 			return
@@ -996,6 +1075,13 @@ func (c *fnCtx) stmt(ind int, s ast.Stmt) {
 			s, t := c.expr(v.X, tyInt)
 			if t.kind == "int" {
 				c.assignTo(ind, v.X, "("+s+" + 1)", v.Pos())
+				return
+			}
+		}
+		if v.Tok == token.DEC && u.intType == "Int" {
+			s, t := c.expr(v.X, tyInt)
+			if t.kind == "int" {
+				c.assignTo(ind, v.X, "("+s+" - 1)", v.Pos())
 				return
 			}
 		}
@@ -1150,8 +1236,14 @@ func (c *fnCtx) stmt(ind int, s ast.Stmt) {
 		switch xt.kind {
 		case "map":
 			if c.mutatesMapKeys(v.Body, v.X, v.Key) {
-				c.fail(v.Pos(), "range over a map that the body grows or shrinks")
-				return
+				if !u.guardGrowth || c.shrinksOrReplaces(v.Body, v.X) || v.Key == nil {
+					c.fail(v.Pos(), "range over a map that the body grows or shrinks")
+					return
+				}
+				// accepted with a guard at every assignment to another key: the key must exist (no growth)
+				u.noteAssume("while ranging over " + exprString(v.X) + " the body assigns entries under other keys: the keys visited are those present when the loop starts (Lean evaluates the collection once) and every such assignment is guarded by `the key exists` — adding a key during a range makes Go's iteration unspecified, the translated function then returns the explicit outcome " + u.outcomeTy() + ".unspecified; the body reads entries through the map, so updates of existing keys are seen")
+				c.ranged = append(c.ranged, rangedMap{exprString(v.X), exprString(v.Key)})
+				defer func() { c.ranged = c.ranged[:len(c.ranged)-1] }()
 			}
 			k := name(v.Key, tyString)
 			val := name(v.Value, xt.elem)
@@ -1183,6 +1275,25 @@ func (c *fnCtx) stmt(ind int, s ast.Stmt) {
 	case *ast.ForStmt:
 		// for i := 0; i < len(xs); i++ { … }  where the body may grow xs: a work list.
 		// Translated with explicit fuel: at most `fuel` iterations (the refinement theorem states how much is enough).
+		if v.Init == nil && v.Post == nil && v.Cond != nil && u.outcome != "" {
+			// for cond { … }: translated with explicit fuel (the refinement theorem states how much is enough)
+			cs, ct := c.expr(v.Cond, tyBool)
+			if ct.kind != "bool" {
+				c.fail(v.Cond.Pos(), "condition is not boolean")
+			}
+			c.fuelUsed = true
+			c.line(ind, "for _ in List.range fuel do")
+			c.line(ind+1, "if !"+cs+" then")
+			c.line(ind+2, "break")
+			if containsContinueShallow(v.Body) {
+				c.fail(v.Pos(), "continue directly inside a condition-only for loop")
+				return
+			}
+			c.push()
+			c.block(ind+1, v.Body)
+			c.pop()
+			return
+		}
 		if v.Init == nil || v.Cond == nil || v.Post == nil {
 			c.fail(v.Pos(), "unsupported for statement")
 			return
@@ -1269,6 +1380,10 @@ func (c *fnCtx) mutatesMapKeys(body *ast.BlockStmt, m ast.Expr, key ast.Expr) bo
 				if exprString(l) == ms { // the map itself is replaced
 					bad = true
 				}
+			}
+		case *ast.IncDecStmt: // m[e]++ / m[e]-- creates the entry when it is missing
+			if ix, ok := x.X.(*ast.IndexExpr); ok && exprString(ix.X) == ms && exprString(ix.Index) != ks {
+				bad = true
 			}
 		case *ast.CallExpr:
 			if exprString(x.Fun) == "delete" && len(x.Args) > 0 && exprString(x.Args[0]) == ms {
@@ -1393,8 +1508,8 @@ func (u *transUnit) transFuncMode(recv, name, leanName string, mayPanic bool) bo
 		return false
 	}
 	if mayPanic {
-		rt = "MayPanic (" + rt + ")"
-		u.noteAssume("a method call through a nil interface value (a missing map entry) panics in Go: the translated function then returns the explicit outcome MayPanic.panic")
+		rt = u.outcomeTy() + " (" + rt + ")"
+		u.noteAssume("a method call through a nil interface value (a missing map entry) panics in Go: the translated function then returns the explicit outcome " + u.outcomeTy() + ".panic")
 	}
 	u.methods[recv+"."+name] = &methodInfo{leanName: leanName, hasRecv: c.recv != "", params: paramTys, results: c.results,
 		mayPanic: mayPanic, fuel: c.fuelUsed, extArgs: u.extArgs}
@@ -1460,4 +1575,95 @@ func (u *transUnit) render() string {
 	}
 	sb.WriteString("end EinoV.Gen.Trans" + u.id + "\n")
 	return sb.String()
+}
+
+// shrinksOrReplaces: delete(m, …) or m = … inside the body.
+func (c *fnCtx) shrinksOrReplaces(body *ast.BlockStmt, m ast.Expr) bool {
+	ms := exprString(m)
+	bad := false
+	ast.Inspect(body, func(n ast.Node) bool {
+		switch x := n.(type) {
+		case *ast.AssignStmt:
+			for _, l := range x.Lhs {
+				if exprString(l) == ms {
+					bad = true
+				}
+			}
+		case *ast.CallExpr:
+			if exprString(x.Fun) == "delete" && len(x.Args) > 0 && exprString(x.Args[0]) == ms {
+				bad = true
+			}
+		}
+		return !bad
+	})
+	return bad
+}
+
+// containsContinueShallow: a `continue` that belongs to this loop (not to a nested range / for).
+func containsContinueShallow(b *ast.BlockStmt) bool {
+	found := false
+	var walk func(n ast.Node) bool
+	walk = func(n ast.Node) bool {
+		switch x := n.(type) {
+		case *ast.RangeStmt, *ast.ForStmt, *ast.FuncLit:
+			return false
+		case *ast.BranchStmt:
+			if x.Tok == token.CONTINUE {
+				found = true
+			}
+		}
+		return !found
+	}
+	ast.Inspect(b, walk)
+	return found
+}
+
+// declareStringConst resolves a package-level `const NAME = "lit"` from the source.
+func (u *transUnit) declareStringConst(name string) {
+	for _, n := range u.pkg.Names {
+		for _, d := range u.pkg.Files[n].Decls {
+			gd, ok := d.(*ast.GenDecl)
+			if !ok || gd.Tok != token.CONST {
+				continue
+			}
+			for _, sp := range gd.Specs {
+				vs := sp.(*ast.ValueSpec)
+				for i, nm := range vs.Names {
+					if nm.Name == name && i < len(vs.Values) {
+						if bl, ok := vs.Values[i].(*ast.BasicLit); ok && bl.Kind == token.STRING && strings.HasPrefix(bl.Value, "\"") {
+							if u.consts == nil {
+								u.consts = map[string]string{}
+							}
+							u.consts[name] = bl.Value
+							u.defs = append(u.defs, fmt.Sprintf("/-- Go: const %s = %s (compose/%s) -/\ndef const_%s : String := %s", name, bl.Value, n, name, bl.Value))
+							return
+						}
+					}
+				}
+			}
+		}
+	}
+	u.errs = append(u.errs, "string constant "+name+" not found")
+}
+
+// structFieldNames lists the named fields of a struct type of the package (embedded fields have no name and are not listed).
+func (u *transUnit) structFieldNames(name string) []string {
+	var out []string
+	for _, n := range u.pkg.Names {
+		for _, d := range u.pkg.Files[n].Decls {
+			if gd, ok := d.(*ast.GenDecl); ok && gd.Tok == token.TYPE {
+				for _, sp := range gd.Specs {
+					ts := sp.(*ast.TypeSpec)
+					if st, ok := ts.Type.(*ast.StructType); ok && ts.Name.Name == name {
+						for _, f := range st.Fields.List {
+							for _, nm := range f.Names {
+								out = append(out, nm.Name)
+							}
+						}
+					}
+				}
+			}
+		}
+	}
+	return out
 }
